@@ -465,6 +465,22 @@ def cargo_build(ctx, crate, bins, release=False, timeout=1500, extra_env=None):
         env.update(extra_env)
     with Lock("cargo"):
         rc, out, err = sh(cmd, cwd=crate_dir, timeout=timeout, env=env)
+        if rc != 0 and "[features]" in open(os.path.join(crate_dir, "Cargo.toml")).read():
+            # The drivers of all checks are compiled inside one crate (hook H6), each behind its own cargo
+            # feature.  If the crate no longer builds, another check's driver may be the one that broke:
+            # retry with only the drivers this check needs.
+            feats = ",".join("drv_" + b for b in bins)
+            cmd2 = ["cargo", "build", "--offline", "--no-default-features", "--features", feats]
+            if release:
+                cmd2.append("--release")
+            for b in bins:
+                cmd2 += ["--bin", b]
+            rc2, out2, err2 = sh(cmd2, cwd=crate_dir, timeout=timeout, env=env)
+            if rc2 == 0:
+                ctx.notes.append("the harness crate did not build with all drivers (another check's driver no longer "
+                                 "compiles against the current /repo); built with only: " + feats)
+                ctx.log("harness: full build failed, built with features " + feats)
+                rc, out, err = rc2, out2, err2
     if rc != 0:
         raise Violation("harness build failed (the code no longer offers what the correspondence "
                         "harness calls): " + err[-2500:],
